@@ -681,6 +681,75 @@ var All = []Body{
 		}
 		return sb.String()
 	}},
+	// ---- errors are values of the instance that produced them: a later error of another instance must not change them ----
+	{"error-objects", true, func(v int, step func()) string {
+		var sb strings.Builder
+		firstErr := func(kind int, src string) error {
+			in := parse.NewInputBytes(pick(0, src))
+			switch kind {
+			case 0:
+				l := xml.NewLexer(in)
+				for {
+					if tt, _ := l.Next(); tt == xml.ErrorToken {
+						return l.Err()
+					}
+				}
+			case 1:
+				l := html.NewLexer(in)
+				for {
+					if tt, _ := l.Next(); tt == html.ErrorToken {
+						return l.Err()
+					}
+				}
+			case 2:
+				p := json.NewParser(in)
+				for {
+					if gt, _ := p.Next(); gt == json.ErrorGrammar {
+						return p.Err()
+					}
+				}
+			case 3:
+				l := js.NewLexer(in)
+				for {
+					if tt, _ := l.Next(); tt == js.ErrorToken {
+						return l.Err()
+					}
+				}
+			case 4:
+				p := css.NewParser(in, false)
+				for i := 0; i < 1000; i++ {
+					if gt, _, _ := p.Next(); gt == css.ErrorGrammar {
+						return p.Err()
+					}
+				}
+				return nil
+			default:
+				_, err := js.Parse(in, js.Options{})
+				return err
+			}
+		}
+		docs := [][2]string{
+			{"<a>\n\n  x\x00</a>", "<b c='d'>\x00"},
+			{"<p>\n<svg>\x00</svg>", "<q>\n\n\n<math>\x00"},
+			{"[1,\n 2 @]", "{\"a\":\n\n\x00}"},
+			{"a = 1;\n b @ 2", "\n\n\nx \\ y"},
+			{"a{b:c}}\n", "d{e}\n\n\nf{g:h}}"},
+			{"x = ;\n", "\n\ny = (1;"},
+		}
+		k := v % 6
+		e1 := firstErr(k, docs[k][0])
+		t1 := fmt.Sprint(e1)
+		step()
+		e2 := firstErr(k, docs[k][1])
+		t2 := fmt.Sprint(e2)
+		step()
+		e3 := firstErr((k+1)%6, docs[(k+1)%6][0])
+		fmt.Fprintf(&sb, "%q | %q | %q", t1, t2, fmt.Sprint(e3))
+		if fmt.Sprint(e1) != t1 || fmt.Sprint(e2) != t2 {
+			fmt.Fprintf(&sb, " SELF-CHECK FAILED: an error read %q when it was returned and reads %q after another instance failed", t1, fmt.Sprint(e1))
+		}
+		return sb.String()
+	}},
 	// ---- two stream lexers over long streams, alive at the same time, freeing with a lag ----
 	{"streamlexer-two-streams", true, func(v int, step func()) string {
 		var sb strings.Builder
